@@ -82,6 +82,31 @@ def run(rep):
                 ss = [dict(s, want_plan=(i % 25 == 0)) for i, s in enumerate(ss)]
                 ljs = [dict(x, strict=False) for x in lj] if (lname == 'spill' or (lname.startswith('parquet') and not rows)) else lj  # empty Parquet table under a join: C04's subject  # the join spill path may refuse outer joins explicitly
                 units.append({'db': db, 'stmts': ss + (ljs if lname != 'mem-6batches' else []), 'layout': lname})
+    # high-cardinality family: > 65,536 groups opens the parallel raw-key merge paths (row gates are reached with real rows, no hook)
+    ngroups = 66000
+    for vt in (['float64', 'int64'] if quick else ['float64', 'int64', 'utf8']):
+        x, y = VAL[vt][1], VAL[vt][2]
+        big = []
+        for k in range(ngroups):
+            m = k % 4
+            if m == 0:
+                big.append([k, None])
+            elif m == 1:
+                big.append([k, None]); big.append([k, x])
+            elif m == 2:
+                big.append([k, y])
+            else:
+                big.append([k, x]); big.append([k, y])
+        big.append([None, None]); big.append([None, x])
+        bst = []
+        for aset in agg_sets(vt, 1) + ([['SUM(v)', 'COUNT(v)']] if vt != 'utf8' else []):
+            d = {'sql': 'SELECT g, %s FROM t GROUP BY g' % ', '.join(aset), 'tag': 'grouped-66k-groups', 'strict': True, 'nontrivial': True, 'want_plan': True}
+            if any(a.startswith('AVG') for a in aset):
+                d['approx'] = True
+            bst.append(d)
+        for lname, kw in (('mem-8batches', dict(nbatches=8)), ('parquet-rg8192', dict(storage='parquet', rg=8192, nbatches=2))):
+            for chunk in (bst[:4], bst[4:]):
+                units.append({'db': {'tables': [table('t', [['g', 'int64'], ['v', vt]], big, **kw), ktab]}, 'stmts': chunk, 'layout': lname})
     configs = [{'name': 'default', 'env': {}}, {'name': 'morsel-off', 'env': {'QE_MORSEL': '0'}}]
     # morsel-off only matters for parquet layouts
     us = []
@@ -92,10 +117,10 @@ def run(rep):
             us.append(dict(u, config='default'))
     rep.rule = ('all multisets of <= 3 rows over (g,v) in {NULL,x,y}^2 for typings %s; every aggregate set of size <= %d from COUNT(*)/COUNT/SUM/AVG/MIN/MAX/COUNT(DISTINCT), '
                 'global / GROUP BY g / WHERE-emptied / filtered-to-NULL-key / above a LEFT JOIN; layouts memory 1 batch, memory 6 batches (rows x2), Parquet row-group-per-row '
-                '(QE_MORSEL default and 0), memory limit 1 byte (spill path); oracle SQLite; Execution errors are violations'
+                '(QE_MORSEL default and 0), memory limit 1 byte (spill path); plus one 66,000-group table (NULL-only, mixed and non-NULL groups) per value type in 8 memory batches and as Parquet; oracle SQLite; Execution errors are violations'
                 % (typings, 1 if quick else 2))
     rep.extra['tables'] = ntables
-    sqldiff.run(rep, us, configs)
+    sqldiff.run(rep, us, configs, chunk=8, timeout=120)
 
 
 def replay(payload):
